@@ -18,7 +18,8 @@ FAMILY = "load"
 LEAN_MODULE = "ElfioVerif.Props.C20"
 THEOREMS = ["ElfioVerif.C20.validate_overlap", "ElfioVerif.C20.validate_overlap_only_if",
             "ElfioVerif.C20.validate_skew", "ElfioVerif.C20.validate_skew_only_if",
-            "ElfioVerif.C20.validate_overlap_witness_prefix", "ElfioVerif.C20.validate_silent"]
+            "ElfioVerif.C20.validate_overlap_witness_prefix", "ElfioVerif.C20.validate_silent",
+            "ElfioVerif.C20.validate_silent_save"]
 SITES = ["validate", "find_prog", "is_offset_in_section", "get_virtual_addr"]
 RULE = ("writer-domain programs x 4 configurations: save, validate, reload, validate (silence expected); then for "
         "sampled (quick) / all (thorough) ordered pairs of sections: force an overlap by rewriting one sh_offset in "
